@@ -3,6 +3,7 @@ import GrcovModel.Drv.Lcov
 import GrcovModel.Drv.Pipeline
 import GrcovModel.Drv.Confine
 import GrcovModel.Drv.C19Dest
+import GrcovModel.Drv.C20FindBin
 import GrcovModel.Drv.LlvmTools
 import GrcovModel.Drv.Writers
 import GrcovModel.Drv.C03CobAde
@@ -11,6 +12,7 @@ import GrcovModel.Drv.C20Consumer
 import GrcovModel.Drv.C03Docs
 import GrcovModel.Drv.C14Gcno
 import GrcovModel.Drv.MainGlue
+import GrcovModel.Drv.C03JsonBytes
 open Grcov.Drv
 
 def step (line : String) : String :=
@@ -19,6 +21,7 @@ def step (line : String) : String :=
   | "addresults" :: args => handleAddResults args
   | "lcov.parse" :: args => handleLcovParse args
   | "utf8lossy" :: args => handleUtf8Lossy args
+  | "utf8valid" :: args => handleUtf8Valid args
   | "lcov.print" :: args => handleLcovPrint args
   | "pipe.replay" :: args => handlePipeReplay args
   | "pipe.stuck" :: args => handlePipeStuck args
@@ -29,6 +32,7 @@ def step (line : String) : String :=
   | "confine.dest.run" :: args => handleDestRun args
   | "confine.dest.gcov" :: args => handleDestGcov args
   | "confine.dest.outfile" :: args => handleDestOutFile args
+  | "confine.dest.profdata" :: args => handleDestProfdata args
   | "llvm.model" :: args => handleLlvmModel args
   | "c03.covdir" :: args => handleCovdirArray args
   | "c03.html" :: args => handleHtmlCounts args
@@ -50,6 +54,10 @@ def step (line : String) : String :=
   | "c14.gcno.gcdarecs" :: args => Grcov.Drv.C14Gcno.handleGcdaRecs args
   | "main.plan" :: args => Grcov.Drv.MainGlue.handlePlan args
   | "main.sort" :: args => Grcov.Drv.MainGlue.handleSort args
+  | "c03.json.coveralls" :: args => handleJsonCoveralls args
+  | "c03.json.covdir" :: args => handleJsonCovdir args
+  | "c03.json.ade" :: args => handleJsonAde args
+  | "c20.llvmtree.find" :: args => handleLlvmTreeFind args
   | _ => "bad-op"
 
 partial def loop (h : IO.FS.Stream) (out : IO.FS.Stream) : IO Unit := do
